@@ -166,6 +166,7 @@ func firstUse(cx *lib.Ctx) {
 		}
 	}
 	firstUseBody(cx)
+	sharedSchema(cx)
 }
 
 // firstUseBody: the first content extraction on a freshly parsed body, by all goroutines at once, with schemas
